@@ -9,6 +9,7 @@ import (
 	"strings"
 	"unicode"
 	"unicode/utf16"
+	"unicode/utf8"
 )
 
 const (
@@ -141,10 +142,13 @@ func (lineParser *LineParser) parseMarkup() (*ParseResult, error) {
 		}
 	}
 
+	text := builder.String()
+
 	if !characterAttributeIsPresent {
-		match := endOfCharacterMarker.FindStringIndex(lineParser.input)
+		// the prefix is looked for in the plain text, where positions are counted, not in the source
+		match := endOfCharacterMarker.FindStringIndex(text)
 		if match != nil {
-			characterName := lineParser.input[:match[0]]
+			characterName := strings.TrimSpace(text[:match[0]])
 			nameValue := Value{
 				StringValue: characterName,
 				ValueType:   ValueTypeString,
@@ -153,7 +157,7 @@ func (lineParser *LineParser) parseMarkup() (*ParseResult, error) {
 				Name:           characterAttribute,
 				Position:       0,
 				SourcePosition: 0,
-				Length:         match[1],
+				Length:         utf8.RuneCountInString(text[:match[1]]),
 				Properties: map[string]Value{
 					characterAttributeNameProperty: nameValue,
 				},
@@ -163,8 +167,20 @@ func (lineParser *LineParser) parseMarkup() (*ParseResult, error) {
 		}
 	}
 
+	// the text is returned without surrounding whitespace: attributes follow it
+	trimmedText := strings.TrimSpace(text)
+	trimmedAtStart := utf8.RuneCountInString(text) - utf8.RuneCountInString(strings.TrimLeftFunc(text, unicode.IsSpace))
+	trimmedLength := utf8.RuneCountInString(trimmedText)
+	for i := range attributes {
+		start := attributes[i].Position - trimmedAtStart
+		end := start + attributes[i].Length
+		start = max(0, min(start, trimmedLength))
+		end = max(start, min(end, trimmedLength))
+		attributes[i].Position, attributes[i].Length = start, end-start
+	}
+
 	return &ParseResult{
-		Text:       strings.TrimSpace(builder.String()),
+		Text:       trimmedText,
 		Attributes: attributes,
 	}, nil
 }
